@@ -550,7 +550,7 @@ impl TypedScenario for C09E2E {
     fn budget(&self, tier: Tier) -> usize {
         match tier {
             Tier::Quick => 2800,
-            Tier::Thorough => 200_000,
+            Tier::Thorough => 1_000_000,
         }
     }
     fn generate(&self, seed: u64, index: usize, _tier: Tier) -> Plan {
@@ -754,7 +754,7 @@ impl TypedScenario for C09Raw {
     fn budget(&self, tier: Tier) -> usize {
         match tier {
             Tier::Quick => 2000,
-            Tier::Thorough => 150_000,
+            Tier::Thorough => 750_000,
         }
     }
     fn generate(&self, seed: u64, index: usize, _tier: Tier) -> RawPlan {
@@ -982,7 +982,7 @@ impl TypedScenario for C09Sync {
     fn budget(&self, tier: Tier) -> usize {
         match tier {
             Tier::Quick => 100_000,
-            Tier::Thorough => 5_000_000,
+            Tier::Thorough => 20_000_000,
         }
     }
     fn generate(&self, seed: u64, _index: usize, _tier: Tier) -> SyncPlan {
